@@ -53,8 +53,17 @@ def _callm(L, obj, name, *a, **k):
     return getattr(obj, name)(*a, **k)
 
 
+def _crop_idx(L, s, i, j):
+    """The owner crops its spectrum to the closed range between two of its own current samples (documented in-place edit)."""
+    n = len(s.wave)
+    i = max(0, min(int(i), n - 1))
+    j = max(i, min(int(j), n - 1))
+    return s.crop(s.wave[i] * (1 - 1e-12), s.wave[j] * (1 + 1e-12))
+
+
 FNS = {
     # ---- generic
+    'h.crop_idx': _crop_idx,
     'call': _call,
     'callm': _callm,
     'attr': _attr,
